@@ -106,6 +106,23 @@ pub fn replay(ctx: &Ctx, path: &str) -> i32 {
             }
             other => Some(format!("run ended in {}", other.describe())),
         }
+    } else if case.get("cli_script").is_some() || case.get("cli_stdin").is_some() {
+        // through the command-line host (C02): no panic, one of the host's own exit codes
+        let dir = crate::cli::scratch_dir(ctx, "c02");
+        let _ = std::fs::write(dir.join("text.txt"), b"some text\n");
+        let _ = std::fs::write(dir.join("bytes.bin"), [0xffu8, 0xfe, 0x00, 0x80]);
+        let _ = std::fs::create_dir_all(dir.join("a_directory"));
+        let (r, codes): (crate::cli::CliRun, Vec<i32>) = if let Some(src) = case.get("cli_script").and_then(|s| s.as_str()) {
+            let _ = std::fs::write(dir.join("replay_probe.yl"), src);
+            (crate::cli::run(ctx, &dir, &["replay_probe.yl"], None), vec![0, 65, 70])
+        } else {
+            (crate::cli::run(ctx, &dir, &[], case.get("cli_stdin").and_then(|s| s.as_str())), vec![0])
+        };
+        println!("yarel-cli printed {:?}, stderr {:?}, exit {:?}", r.stdout, r.stderr, r.code);
+        match r.code {
+            Some(c) if codes.contains(&c) && !r.stderr.contains("panicked at") && !r.timed_out => None,
+            other => Some(format!("the command-line host ended with {:?} (a panic, a signal or no end)", other)),
+        }
     } else if let (Some(src), Some(file), Some(contents)) = (case.get("source").and_then(|s| s.as_str()), case.get("file").and_then(|s| s.as_str()), case.get("file_contents").and_then(|s| s.as_str())) {
         // through the command-line host (C11 level 6)
         let dir = crate::cli::scratch_dir(ctx, "replay");
